@@ -28,12 +28,12 @@ func (w *world) reserveCall(cl *cli, raw, noWait bool) rsvResult {
 
 func (w *world) doReserve(op opT) string {
 	cl := w.cl[op.a]
-	if !w.ensure(cl) {
+	if !w.prep(cl) {
 		return "skipped (not connected)"
 	}
 	w.takeDisc()
 	w.noteRelayed()
-	ips := w.ipsSeen(cl)
+	ips := w.ipsFor(cl)
 	before := w.firedCounts()
 	w.arm(op, cl, nil)
 	r := w.reserveCall(cl, op.raw, op.fault == faultHop)
@@ -266,7 +266,7 @@ func (w *world) endCircuit(cc *circ) {
 func (w *world) doConnect(op opT) string {
 	c := w.cfg
 	src, dst := w.cl[op.a], w.cl[op.b]
-	if !w.ensure(src) {
+	if !w.prep(src) {
 		return "skipped (source not connected)"
 	}
 	w.takeDisc()
@@ -549,7 +549,7 @@ func (w *world) doConnectReal(op opT) string {
 		op.hold = false
 		return "as raw: " + w.doConnect(op)
 	}
-	if !w.ensure(src) {
+	if !w.prep(src) {
 		return "skipped (source not connected)"
 	}
 	w.takeDisc()
